@@ -115,19 +115,30 @@ func isLogCall(s string) bool {
 	return strings.HasPrefix(s, "log.") || strings.HasPrefix(s, "logrus.") || strings.HasPrefix(s, "klog.")
 }
 
-// findCounters: a field is diagnostic-only when every occurrence of `.f` in the package is the target
-// of ++ / += / an Add-Inc-Store call, sits inside the arguments of a log call, or is inside an unexported
-// function that nothing in the package calls.  Such a field cannot influence any behaviour the model has.
+// findCounters finds the diagnostic-only fields: a field f is diagnostic when every occurrence of `.f`
+// in the package is
+//   - the target of an assignment, ++, op= or an Add / Inc / Store call (a write),
+//   - inside the arguments of a log call,
+//   - inside an unexported function that nothing in the package calls,
+//   - inside the initialiser or condition of an `if` whose branches only log or write diagnostic fields, or
+//   - returned by an unexported accessor (lock, unlock, return of diagnostic fields) all of whose calls are
+//     themselves in such a place.
+//
+// Such a field cannot influence any behaviour the model has.  Computed as a greatest fixpoint.
 func (p *pkgInfo) findCounters() {
-	type occ struct{ ok bool }
-	fields := map[string][]bool{}
+	type occ struct {
+		f     *gast.File
+		fd    *ast.FuncDecl
+		stack []ast.Node
+	}
+	occs := map[string][]occ{}
+	calls := map[string][]occ{} // call sites by callee name
 	for _, f := range p.files {
 		for _, d := range f.F.Decls {
 			fd, ok := d.(*ast.FuncDecl)
 			if !ok || fd.Body == nil {
 				continue
 			}
-			dead := !ast.IsExported(fd.Name.Name) && p.callers[fd.Name.Name] == 0
 			var stack []ast.Node
 			ast.Inspect(fd.Body, func(n ast.Node) bool {
 				if n == nil {
@@ -135,42 +146,190 @@ func (p *pkgInfo) findCounters() {
 					return true
 				}
 				stack = append(stack, n)
-				se, ok := n.(*ast.SelectorExpr)
-				if !ok {
-					return true
-				}
-				good := dead
-				for i := len(stack) - 2; i >= 0 && !good; i-- {
-					switch x := stack[i].(type) {
-					case *ast.IncDecStmt:
-						good = x.X == stack[i+1]
-					case *ast.AssignStmt:
-						if x.Tok == token.ADD_ASSIGN && len(x.Lhs) == 1 && x.Lhs[0] == stack[i+1] {
-							good = true
-						}
-					case *ast.CallExpr:
-						if isLogCall(rnd(f, x.Fun)) {
-							good = true
-						} else if fs, ok := x.Fun.(*ast.SelectorExpr); ok && fs.X == se && (fs.Sel.Name == "Add" || fs.Sel.Name == "Inc" || fs.Sel.Name == "Store") && i == len(stack)-3 {
-							good = true
-						}
+				switch x := n.(type) {
+				case *ast.SelectorExpr:
+					occs[x.Sel.Name] = append(occs[x.Sel.Name], occ{f, fd, append([]ast.Node(nil), stack...)})
+				case *ast.CallExpr:
+					name := ""
+					switch fn := x.Fun.(type) {
+					case *ast.Ident:
+						name = fn.Name
+					case *ast.SelectorExpr:
+						name = fn.Sel.Name
+					}
+					if name != "" {
+						calls[name] = append(calls[name], occ{f, fd, append([]ast.Node(nil), stack...)})
 					}
 				}
-				fields[se.Sel.Name] = append(fields[se.Sel.Name], good)
 				return true
 			})
 		}
 	}
-	for name, occs := range fields {
-		all := true
-		for _, g := range occs {
-			all = all && g
-		}
-		// only fields: a name that is also a function or method of the package is not a counter
-		if all && len(p.funcs[name]) == 0 {
-			p.counters[name] = true
+	// only unexported fields of struct types declared in this package: nobody else can read them
+	declared := map[string]bool{}
+	for _, f := range p.files {
+		ast.Inspect(f.F, func(n ast.Node) bool {
+			if st, ok := n.(*ast.StructType); ok && st.Fields != nil {
+				for _, fl := range st.Fields.List {
+					for _, nm := range fl.Names {
+						if !ast.IsExported(nm.Name) {
+							declared[nm.Name] = true
+						}
+					}
+				}
+			}
+			return true
+		})
+	}
+	cand := map[string]bool{}
+	for name := range occs {
+		if len(p.funcs[name]) == 0 && declared[name] {
+			cand[name] = true
 		}
 	}
+	p.counters = cand
+	dead := func(fd *ast.FuncDecl) bool { return !ast.IsExported(fd.Name.Name) && p.callers[fd.Name.Name] == 0 }
+	// contextOK: the node on top of the stack sits where its value cannot matter
+	var contextOK func(o occ, depth int) bool
+	accessor := func(fd *ast.FuncDecl) bool {
+		if ast.IsExported(fd.Name.Name) || fd.Body == nil {
+			return false
+		}
+		for _, s := range fd.Body.List {
+			switch x := s.(type) {
+			case *ast.ReturnStmt:
+			case *ast.ExprStmt, *ast.DeferStmt:
+				var ce *ast.CallExpr
+				if e, ok := x.(*ast.ExprStmt); ok {
+					ce, _ = e.X.(*ast.CallExpr)
+				} else {
+					ce = x.(*ast.DeferStmt).Call
+				}
+				if ce == nil {
+					return false
+				}
+				se, ok := ce.Fun.(*ast.SelectorExpr)
+				if !ok || !(se.Sel.Name == "Lock" || se.Sel.Name == "Unlock" || se.Sel.Name == "RLock" || se.Sel.Name == "RUnlock") {
+					return false
+				}
+			default:
+				return false
+			}
+		}
+		return true
+	}
+	contextOK = func(o occ, depth int) bool {
+		if dead(o.fd) {
+			return true
+		}
+		top := o.stack[len(o.stack)-1]
+		for i := len(o.stack) - 2; i >= 0; i-- {
+			child := o.stack[i+1]
+			switch x := o.stack[i].(type) {
+			case *ast.IncDecStmt:
+				if x.X == child {
+					return true
+				}
+			case *ast.AssignStmt:
+				for _, l := range x.Lhs {
+					if l == child && child == top {
+						return true
+					}
+				}
+			case *ast.CallExpr:
+				if isLogCall(rnd(o.f, x.Fun)) {
+					return true
+				}
+				if fs, ok := x.Fun.(*ast.SelectorExpr); ok && fs.X == top && i == len(o.stack)-3 &&
+					(fs.Sel.Name == "Add" || fs.Sel.Name == "Inc" || fs.Sel.Name == "Store") {
+					return true
+				}
+			case *ast.IfStmt:
+				if (x.Init == child || x.Cond == child) && p.insignificantIf(o.f, x) {
+					return true
+				}
+			case *ast.ReturnStmt:
+				if depth < 3 && accessor(o.fd) {
+					ok := true
+					for _, c := range calls[o.fd.Name.Name] {
+						ok = ok && contextOK(c, depth+1)
+					}
+					if ok {
+						return true
+					}
+				}
+			}
+		}
+		return false
+	}
+	for changed := true; changed; {
+		changed = false
+		for name := range cand {
+			for _, o := range occs[name] {
+				if !contextOK(o, 0) {
+					delete(cand, name)
+					changed = true
+					break
+				}
+			}
+		}
+	}
+}
+
+// insignificant: the statement only logs or writes diagnostic fields (p.counters is the current candidate set).
+func (p *pkgInfo) insignificant(f *gast.File, s ast.Stmt) bool {
+	switch x := s.(type) {
+	case *ast.EmptyStmt:
+		return true
+	case *ast.ExprStmt:
+		ce, ok := x.X.(*ast.CallExpr)
+		if !ok {
+			return false
+		}
+		if isLogCall(rnd(f, ce.Fun)) {
+			return true
+		}
+		if se, ok := ce.Fun.(*ast.SelectorExpr); ok {
+			if in, ok := se.X.(*ast.SelectorExpr); ok && p.counters[in.Sel.Name] &&
+				(se.Sel.Name == "Add" || se.Sel.Name == "Inc" || se.Sel.Name == "Store") {
+				return true
+			}
+		}
+		return false
+	case *ast.IncDecStmt:
+		se, ok := x.X.(*ast.SelectorExpr)
+		return ok && p.counters[se.Sel.Name]
+	case *ast.AssignStmt:
+		for _, l := range x.Lhs {
+			se, ok := l.(*ast.SelectorExpr)
+			if !ok || !p.counters[se.Sel.Name] {
+				return false
+			}
+		}
+		return true
+	case *ast.IfStmt:
+		return p.insignificantIf(f, x)
+	case *ast.BlockStmt:
+		for _, b := range x.List {
+			if !p.insignificant(f, b) {
+				return false
+			}
+		}
+		return true
+	}
+	return false
+}
+
+func (p *pkgInfo) insignificantIf(f *gast.File, x *ast.IfStmt) bool {
+	for _, b := range x.Body.List {
+		if !p.insignificant(f, b) {
+			return false
+		}
+	}
+	if x.Else != nil && !p.insignificant(f, x.Else) {
+		return false
+	}
+	return true
 }
 
 // ---------------------------------------------------------------- values
@@ -253,7 +412,49 @@ func mkNot(s string) string {
 
 func isConstLike(s string) bool { return strings.HasPrefix(s, "lit:") || s == "nil" }
 
+// bitTestIsIsSet is set by main when running api.EventMask.IsSet confirmed that IsSet(e) is m&(1<<(e-1)) != 0.
+var bitTestIsIsSet bool
+
+// maskBitTest recognises (M & (1 << (E - 1))) and returns M, E.
+func maskBitTest(s string) (string, string, bool) {
+	p, ok := binParts[s]
+	if !ok || p[0] != "&" {
+		return "", "", false
+	}
+	for _, sw := range [2][2]string{{p[1], p[2]}, {p[2], p[1]}} {
+		sh, ok := binParts[sw[1]]
+		if !ok || sh[0] != "<<" || !(sh[1] == "lit:1" || strings.HasSuffix(sh[1], "EventMask(lit:1)")) {
+			continue
+		}
+		d, ok := binParts[sh[2]]
+		if ok && d[0] == "-" && d[2] == "lit:1" {
+			return sw[0], d[1], true
+		}
+	}
+	return "", "", false
+}
+
 func mkBin(op, a, b string) string {
+	switch op {
+	case "&^", "-", "^":
+		if a == b {
+			return "lit:0"
+		}
+	}
+	if op == "==" && a == b {
+		return "true"
+	}
+	if op == "==" && bitTestIsIsSet {
+		for _, sw := range [2][2]string{{a, b}, {b, a}} {
+			if sw[1] == "lit:0" {
+				if m, e, ok := maskBitTest(sw[0]); ok {
+					r := m + ".IsSet(" + e + ")"
+					callParts[r] = []string{m + ".IsSet", e}
+					return mkNot(r)
+				}
+			}
+		}
+	}
 	switch op {
 	case ">":
 		return mkBin("<", b, a)
@@ -325,7 +526,15 @@ type dec struct {
 	v   bool
 }
 
+type deferRec struct {
+	ce *ast.CallExpr
+	cx *actx
+}
+
 type state struct {
+	defers   map[int][]deferRec // by activation
+	exiting  int
+	nextID   int
 	frames   map[int]map[string]*val
 	trace    []event
 	decs     []dec
@@ -334,7 +543,10 @@ type state struct {
 }
 
 func (st *state) clone() *state {
-	c := &state{frames: map[int]map[string]*val{}, loopExit: map[string]string{}}
+	c := &state{frames: map[int]map[string]*val{}, loopExit: map[string]string{}, defers: map[int][]deferRec{}, exiting: st.exiting, nextID: st.nextID}
+	for a, l := range st.defers {
+		c.defers[a] = append([]deferRec(nil), l...)
+	}
 	for id, fr := range st.frames {
 		m := map[string]*val{}
 		for k, v := range fr {
@@ -361,6 +573,7 @@ func (st *state) decided(key string) (bool, bool) {
 }
 
 type actx struct {
+	act     int // activation (the frame of the function's parameters)
 	file    *gast.File
 	vis     []int
 	results []string
@@ -395,6 +608,9 @@ type symex struct {
 	opaque    map[string]bool // function / method names that stay calls (events)
 	pure      map[string]bool // function / method names whose calls are values without effect
 	nextFrame int
+	// drop X.Lock() immediately followed by X.Unlock() from the traces.  Only sound where taking X briefly adds no
+	// lock-order edge — the relay functions, which take the plugin's mutex in p.close() in the same context anyway.
+	dropEmptySections bool
 }
 
 var pureQualified = map[string]bool{
@@ -442,17 +658,19 @@ func (x *symex) emit(st *state, fn string, args []*val, deferred bool) *val {
 	for _, a := range args {
 		as = append(as, a.String())
 	}
-	id := len(st.trace)
-	st.trace = append(st.trace, event{fn: fn, args: as, deferred: deferred, id: id})
+	id := st.nextID
+	st.nextID++
+	st.trace = append(st.trace, event{fn: fn, args: as, deferred: deferred || st.exiting > 0, id: id})
 	return sym(fmt.Sprintf("call%d", id))
 }
 
 // run executes a declared function with receiver "$r" and parameters "$0", "$1", …
 func (x *symex) run(fi *fnInfo) []out {
-	st := &state{frames: map[int]map[string]*val{}, loopExit: map[string]string{}}
+	st := newState()
 	cx := &actx{file: fi.file}
 	fr := x.frame(st)
 	cx.vis = []int{fr}
+	cx.act = fr
 	if fi.fd.Recv != nil && len(fi.fd.Recv.List) == 1 && len(fi.fd.Recv.List[0].Names) == 1 {
 		st.frames[fr][fi.fd.Recv.List[0].Names[0].Name] = sym("$r")
 	}
@@ -467,7 +685,161 @@ func (x *symex) run(fi *fnInfo) []out {
 		}
 	}
 	x.declResults(st, cx, fi.fd.Type, fr)
-	return x.finish(x.stmts(st, fi.fd.Body.List, cx), cx)
+	outs := x.runDefers(x.finish(x.stmts(st, fi.fd.Body.List, cx), cx), cx)
+	if x.dropEmptySections {
+		for i := range outs {
+			outs[i].st.trace = dropEmptyCriticalSections(outs[i].st.trace)
+		}
+	}
+	return mergeIrrelevant(outs)
+}
+
+func newState() *state {
+	return &state{frames: map[int]map[string]*val{}, loopExit: map[string]string{}, defers: map[int][]deferRec{}}
+}
+
+// runDefers executes the calls deferred by the activation of cx, last registered first, on every outcome.
+func (x *symex) runDefers(outs []out, cx *actx) []out {
+	var res []out
+	for _, o := range outs {
+		cur := []*state{o.st}
+		list := o.st.defers[cx.act]
+		delete(o.st.defers, cx.act)
+		for i := len(list) - 1; i >= 0; i-- {
+			var next []*state
+			for _, s := range cur {
+				s.exiting++
+				for _, r := range x.call(s, list[i].cx, list[i].ce) {
+					r.st.exiting--
+					next = append(next, r.st)
+				}
+			}
+			cur = next
+		}
+		for _, s := range cur {
+			res = append(res, out{st: s, kind: o.kind, ret: o.ret})
+		}
+	}
+	return res
+}
+
+// dropEmptyCriticalSections removes X.Lock() immediately followed by X.Unlock(): nothing happened under the lock.
+func dropEmptyCriticalSections(tr []event) []event {
+	for changed := true; changed; {
+		changed = false
+		for i := 0; i+1 < len(tr); i++ {
+			a, b := tr[i], tr[i+1]
+			for _, pr := range [][2]string{{".Lock", ".Unlock"}, {".RLock", ".RUnlock"}} {
+				if strings.HasSuffix(a.fn, pr[0]) && strings.HasSuffix(b.fn, pr[1]) &&
+					strings.TrimSuffix(a.fn, pr[0]) == strings.TrimSuffix(b.fn, pr[1]) && len(a.args) == 0 && len(b.args) == 0 {
+					tr = append(append([]event(nil), tr[:i]...), tr[i+2:]...)
+					changed = true
+					break
+				}
+			}
+			if changed {
+				break
+			}
+		}
+	}
+	return tr
+}
+
+func outSignature(o out) string {
+	var b strings.Builder
+	for _, e := range o.st.trace {
+		b.WriteString(e.String())
+		b.WriteString(fmt.Sprintf("#%d;", e.id))
+	}
+	b.WriteString("|")
+	for _, v := range o.ret {
+		b.WriteString(v.String() + ",")
+	}
+	b.WriteString(fmt.Sprintf("|%d|%v|", o.kind, o.st.unsup))
+	var ks []string
+	for k, v := range o.st.loopExit {
+		ks = append(ks, k+"="+v)
+	}
+	sort.Strings(ks)
+	b.WriteString(strings.Join(ks, ","))
+	return b.String()
+}
+
+// mergeIrrelevant drops decisions that change nothing: a condition both of whose outcomes lead to the same
+// effects and results (whatever else was decided) is not a condition the behaviour depends on.
+func mergeIrrelevant(outs []out) []out {
+	for {
+		keys := map[string]bool{}
+		for _, o := range outs {
+			for _, d := range o.st.decs {
+				keys[d.key] = true
+			}
+		}
+		var ks []string
+		for k := range keys {
+			ks = append(ks, k)
+		}
+		sort.Strings(ks)
+		merged := false
+		for _, k := range ks {
+			groups := map[string][]int{}
+			var order []string
+			for i, o := range outs {
+				var rest []string
+				for _, d := range o.st.decs {
+					if d.key != k {
+						rest = append(rest, fmt.Sprintf("%s=%v", d.key, d.v))
+					}
+				}
+				g := strings.Join(rest, "&")
+				if _, ok := groups[g]; !ok {
+					order = append(order, g)
+				}
+				groups[g] = append(groups[g], i)
+			}
+			same, both := true, false
+			for _, g := range order {
+				idx := groups[g]
+				seenT, seenF := false, false
+				for _, i := range idx {
+					if outSignature(outs[i]) != outSignature(outs[idx[0]]) {
+						same = false
+					}
+					if v, ok := outs[i].st.decided(k); ok {
+						seenT, seenF = seenT || v, seenF || !v
+					}
+				}
+				if seenT && seenF {
+					both = true
+				} else if seenT || seenF {
+					// decided one way only on these paths: dropping it would lose the information
+					if len(idx) > 0 {
+						same = same && false
+					}
+				}
+			}
+			if !same || !both {
+				continue
+			}
+			var next []out
+			for _, g := range order {
+				o := outs[groups[g][0]]
+				var nd []dec
+				for _, d := range o.st.decs {
+					if d.key != k {
+						nd = append(nd, d)
+					}
+				}
+				o.st.decs = nd
+				next = append(next, o)
+			}
+			outs, merged = next, true
+			break
+		}
+		if !merged {
+			return outs
+		}
+	}
 }
 
 func (x *symex) declResults(st *state, cx *actx, ft *ast.FuncType, fr int) {
@@ -721,12 +1093,9 @@ func (x *symex) stmt(st *state, s ast.Stmt, cx *actx) []out {
 		if isLogCall(rnd(cx.file, n.Call.Fun)) {
 			return []out{{st: st}}
 		}
-		var res []out
-		for _, r := range x.calleeAndArgs(st, cx, n.Call) {
-			x.emit(r.st, r.v.s, r.v.tuple, true)
-			res = append(res, out{st: r.st})
-		}
-		return res
+		cc := *cx
+		st.defers[cx.act] = append(st.defers[cx.act], deferRec{ce: n.Call, cx: &cc})
+		return []out{{st: st}}
 	case *ast.GoStmt:
 		x.emit(st, "go", nil, false)
 		return []out{{st: st}}
@@ -1130,6 +1499,12 @@ func (x *symex) call(st *state, cx *actx, ce *ast.CallExpr) []evr {
 				}
 			}
 			switch {
+			case f.Name == "new" && len(ce.Args) == 1:
+				typ := rnd(cx.file, ce.Args[0])
+				if i := strings.LastIndex(typ, "."); i >= 0 {
+					typ = typ[i+1:]
+				}
+				res = append(res, evr{a.st, &val{typ: typ, fields: map[string]*val{}}})
 			case builtinPure[f.Name] || x.pure[f.Name]:
 				res = append(res, evr{a.st, sym(mkCall(f.Name, a.v.tuple))})
 			case x.opaque[f.Name]:
@@ -1217,6 +1592,7 @@ func (x *symex) call(st *state, cx *actx, ce *ast.CallExpr) []evr {
 func (x *symex) invoke(st *state, cx *actx, ft *ast.FuncType, body *ast.BlockStmt, file *gast.File, vis []int, recv *val, rname string, args []*val) []evr {
 	inner := &actx{file: file, depth: cx.depth + 1}
 	fr := x.frame(st)
+	inner.act = fr
 	inner.vis = append(append([]int(nil), vis...), fr)
 	if recv != nil && rname != "" {
 		st.frames[fr][rname] = recv
@@ -1237,7 +1613,7 @@ func (x *symex) invoke(st *state, cx *actx, ft *ast.FuncType, body *ast.BlockStm
 	}
 	x.declResults(st, inner, ft, fr)
 	var res []evr
-	for _, o := range x.finish(x.stmts(st, body.List, inner), inner) {
+	for _, o := range x.runDefers(x.finish(x.stmts(st, body.List, inner), inner), inner) {
 		switch len(o.ret) {
 		case 0:
 			res = append(res, evr{o.st, sym("nil")})
